@@ -11,6 +11,7 @@ for p in props:
     pid = p["id"]
     if pid in registry.PROPS and pid in T.TEXT:
         t = T.TEXT[pid]
+        extra = [T.STAGE_TEXT[st["name"]] for st in registry.PROPS[pid]["stages"] if st["name"] in T.STAGE_TEXT]
         checks.append({
             "property_id": pid,
             "quick_cmd": "bin/check %s --tier quick" % pid,
@@ -20,7 +21,7 @@ for p in props:
             "engine": "tla-mbt",
             "level_claimed": {"category": registry.PROPS[pid]["level"], "text": t["level"], "design_ref": t.get("ref", "DESIGN.md section 5 " + pid)},
             "level_note": t["note"],
-            "technique": t["technique"],
+            "technique": "; ".join([t["technique"]] + extra),
         })
     else:
         na.append({"property_id": pid, "reason": T.NA.get(pid, "check not built yet in this round; planned in DESIGN.md section 5 " + pid)})
